@@ -240,7 +240,9 @@ def check_flux_case(ctx, mt, res):
             if impl['err'] is not None and not mt['twod']:
                 ie = float(impl['err'][j])
                 me = math.sqrt(float(m_e2)) if m_e2 >= 0 else float('nan')
-                if not C.close(ie, me, rel=1e-9, abs_=1e-300):
+                # overlaps are differences of edges: a sliver's weight carries an absolute error of 1e-16 of the edge
+                # values, which reaches the result when that sliver has by far the largest error bar
+                if not C.close(ie, me, rel=1e-9, abs_=1e-300 + 1e-10 * float(np.max(mt['e']))):
                     bad = 'error bar %d: impl %r model %r' % (j, ie, me)
     if mt['twod'] and bad is None:
         row2 = impl['flux'][1]
